@@ -1,0 +1,81 @@
+//go:build verif && js && wasm
+
+// Contracts of the WebAssembly binding (comment-only; read by /verif/govc).
+// A js.Value is described by uninterpreted readings: jstype (3 = number, 4 = string),
+// jsstring, jsint, jsbool. iserr(r): r is a JavaScript string starting with "error:".
+
+package main
+
+//@ macro sarg(a) = jstype(a) == 4 && jsstring(a) != ""
+//@ macro narg(a) = jstype(a) == 3 && jsint(a) >= 0
+//@ macro iserr(r) = jstype(r) == 4 && hasprefix(jsstring(r), "error:")
+//@ macro isstr(r, s) = jstype(r) == 4 && jsstring(r) == s
+//@ macro isbool(r, b) = jstype(r) == 2 && (jsbool(r) <==> b)
+//@ macro digitsof(s) = s == "6" ? 6 : (s == "8" ? 8 : (s == "9" ? 9 : (s == "10" ? 10 : 6)))
+//@ macro algoof(s) = s == "SHA1" ? 0 : (s == "SHA256" ? 1 : (s == "SHA512" ? 2 : 0))
+
+//@ func main.parseStringArg(arg, name) (s, err)
+//@   ensures[iff] err == nil <==> sarg(arg)
+//@   ensures[val] err == nil ==> s == jsstring(arg)
+
+//@ func main.parseIntArg(arg, name) (v, err)
+//@   ensures[iff] err == nil <==> narg(arg)
+//@   ensures[val] err == nil ==> v == jsint(arg)
+
+//@ func main.generateOTP(secret, counter, digits, algo) (code, err)
+//@   requires 1 <= digits && digits <= 10
+//@   ensures[rfc4226] b32ok(secret) && algo <= 2 ==> err == nil && code == hotp(algo, b32key(secret), counter, digits)
+//@   ensures[reject] !(b32ok(secret) && algo <= 2) ==> err != nil && code == ""
+
+//@ func main.parseArgsAndGenerate(args, otpType) (code, err)
+//@   let ok = len(args) == 4 && sarg(args[0]) && narg(args[1]) && sarg(args[2]) && sarg(args[3])
+//@   ensures[args] !ok ==> err != nil
+//@   ensures[rfc4226] ok && b32ok(jsstring(args[0])) ==> err == nil &&
+//@ |    code == hotp(algoof(jsstring(args[3])), b32key(jsstring(args[0])), jsint(args[1]), digitsof(jsstring(args[2])))
+//@   ensures[badsecret] ok && !b32ok(jsstring(args[0])) ==> err != nil
+
+//@ func main.generateHOTP(this, args) (r)
+//@   let ok = len(args) == 4 && sarg(args[0]) && narg(args[1]) && sarg(args[2]) && sarg(args[3])
+//@   ensures[error] !(ok && b32ok(jsstring(args[0]))) ==> iserr(r)
+//@   ensures[same] ok && b32ok(jsstring(args[0])) ==>
+//@ |    isstr(r, hotp(algoof(jsstring(args[3])), b32key(jsstring(args[0])), jsint(args[1]), digitsof(jsstring(args[2]))))
+
+//@ func main.generateTOTP(this, args) (r)
+//@   let ok = len(args) == 5 && sarg(args[0]) && narg(args[1]) && sarg(args[2]) && sarg(args[3]) && narg(args[4]) && 1 <= jsint(args[4]) && jsint(args[4]) <= 3600
+//@   ensures[error] !(ok && b32ok(jsstring(args[0]))) ==> iserr(r)
+//@   ensures[same] ok && b32ok(jsstring(args[0])) ==>
+//@ |    isstr(r, hotp(algoof(jsstring(args[3])), b32key(jsstring(args[0])), jsint(args[1]) / jsint(args[4]), digitsof(jsstring(args[2]))))
+
+//@ func main.validateHOTP(this, args) (r)
+//@   let ok = len(args) == 6 && sarg(args[0]) && sarg(args[1]) && narg(args[2]) && sarg(args[3]) && sarg(args[4]) && narg(args[5]) && jsint(args[5]) <= 10
+//@   let s = jsint(args[5])
+//@   let c = jsint(args[2])
+//@   let d = digitsof(jsstring(args[3]))
+//@   let a = algoof(jsstring(args[4]))
+//@   let key = b32key(jsstring(args[0]))
+//@   let code = jsstring(args[1])
+//@   ensures[error] !(ok && b32ok(jsstring(args[0]))) ==> iserr(r)
+//@   ensures[window] ok && b32ok(jsstring(args[0])) ==> isbool(r, len(code) == d &&
+//@ |    exists j in -10..10 :: -s <= j && j <= s && c + j >= 0 && code == hotp(a, key, c + j, d))
+//@   loop 1 invariant -s <= i && i <= s + 1 && ok && b32ok(jsstring(args[0])) && view(secretBuf) == key && skew == s && counter == c && digits == d && algo == a
+//@   loop 1 invariant forall j in -10..10 :: -s <= j && j < i && c + j >= 0 ==> !(len(code) == d && code == hotp(a, key, c + j, d))
+//@   loop 1 decreases s + 1 - i
+//@   loop 1 bound 21
+
+//@ func main.validateTOTP(this, args) (r)
+//@   let ok = len(args) == 7 && sarg(args[0]) && sarg(args[1]) && narg(args[2]) && sarg(args[3]) && sarg(args[4]) && narg(args[5]) && jsint(args[5]) <= 10 &&
+//@ |    narg(args[6]) && jsint(args[6]) >= 1
+//@   let s = jsint(args[5])
+//@   let n = jsint(args[2]) / jsint(args[6])
+//@   let d = digitsof(jsstring(args[3]))
+//@   let a = algoof(jsstring(args[4]))
+//@   let key = b32key(jsstring(args[0]))
+//@   let code = jsstring(args[1])
+//@   requires len(args) == 7 && narg(args[2]) && narg(args[5]) && narg(args[6]) && jsint(args[6]) >= 1 ==> n >= min(s, 10)
+//@   ensures[error] !(ok && b32ok(jsstring(args[0]))) ==> iserr(r)
+//@   ensures[window] ok && b32ok(jsstring(args[0])) ==> isbool(r, len(code) == d &&
+//@ |    exists j in -10..10 :: -s <= j && j <= s && code == hotp(a, key, n + j, d))
+//@   loop 1 invariant -s <= i && i <= s + 1 && ok && b32ok(jsstring(args[0])) && view(secretBuf) == key && skew == s && counter == n && digits == d && algo == a
+//@   loop 1 invariant forall j in -10..10 :: -s <= j && j < i ==> !(len(code) == d && code == hotp(a, key, n + j, d))
+//@   loop 1 decreases s + 1 - i
+//@   loop 1 bound 21
